@@ -16,7 +16,7 @@ EDITS = [
  ('date_range.go', '\tcase valueTime.Equal(startTime):\n\t\treturn "e"\n\n\tcase valueTime.Equal(endTime):\n\t\treturn "E"\n\n\tcase valueTime.Before(startTime):\n\t\treturn "b"\n\n\tcase valueTime.After(endTime):\n\t\treturn "A"\n', '\tcase valueTime.Before(startTime):\n\t\treturn "b"\n\n\tcase valueTime.After(endTime):\n\t\treturn "A"\n\n\tcase valueTime.Equal(endTime):\n\t\treturn "E"\n\n\tcase valueTime.Equal(startTime):\n\t\treturn "e"\n'),
  ('family_node.go', '\t\tnode.resetDocumentCaches()\n\t\tnode.husband = nil\n\t\tnode.cachedHusband = true\n', '\t\tnode.resetDocumentCaches()\n\t\tnode.resetCache()\n'),
  ('jaro.go', 'prefixMatch', 'prefixHits', 'all'),  # a renamed local that a contract names: STALE-CONTRACT, no alarm
- ('node_diff.go', 'diffChild', 'entry', 'all'),
+ ('node_diff.go', '\t\t\tif diffChild.Left != nil && diffChild.Left.Equals(child) {\n\t\t\t\tdiffChild.traverse(child, isLeft)\n\t\t\t\tfound = true\n\t\t\t\tbreak\n\t\t\t}\n\n\t\t\tif diffChild.Right != nil && diffChild.Right.Equals(child) {\n\t\t\t\tdiffChild.traverse(child, isLeft)\n\t\t\t\tfound = true\n\t\t\t\tbreak\n\t\t\t}\n', '\t\t\tif diffChild.Right != nil && diffChild.Right.Equals(child) {\n\t\t\t\tdiffChild.traverse(child, isLeft)\n\t\t\t\tfound = true\n\t\t\t\tbreak\n\t\t\t}\n\n\t\t\tif diffChild.Left != nil && diffChild.Left.Equals(child) {\n\t\t\t\tdiffChild.traverse(child, isLeft)\n\t\t\t\tfound = true\n\t\t\t\tbreak\n\t\t\t}\n'),
  ('q/token.go', '\toriginalPosition := t.Position\n', '\toriginalPosition := t.Position // remember where we started\n'),
 ]
 tmp = tempfile.mkdtemp(prefix='gvharmless-')
